@@ -374,6 +374,30 @@ class TStr:
             return "".startswith(pre)
         return ENGINE.facts.startswith(self, pre)
 
+    # transformations that produce ANOTHER text (content, possibly length, differ): the result is marked
+    # `derived` so that harnesses can tell the document's own text from a copy of it
+    derived = ()
+
+    def _derive(self, op):
+        t = DerivedText(list(self.atoms), self.n)
+        t.derived = tuple(self.derived) + (op,)
+        return t
+
+    def replace(self, old, new, *a):
+        return self._derive("replace")
+
+    def translate(self, table):
+        return self._derive("translate")
+
+    def lower(self):
+        return self._derive("lower")
+
+    def upper(self):
+        return self._derive("upper")
+
+    def casefold(self):
+        return self._derive("casefold")
+
     def __contains__(self, item):
         if not isinstance(item, str):
             raise NotEncodable("non-literal in symbolic text")
@@ -415,6 +439,23 @@ class TStr:
             if a[0] == "sub":
                 conds.append(z3.Or(a[1] == a[2], z3.And(lo <= a[1], a[2] <= hi)))
         return z3.And(*conds) if conds else z3.BoolVal(True)
+
+
+class DerivedText(TStr):
+    """a transformed copy of a symbolic text (same positions, other content)."""
+
+    __slots__ = ("derived",)
+
+    def getitem(self, idx):
+        r = TStr.getitem(self, idx)
+        t = DerivedText(list(r.atoms), r.n)
+        t.derived = self.derived
+        return t
+
+    def _derive(self, op):
+        t = DerivedText(list(self.atoms), self.n)
+        t.derived = tuple(self.derived) + (op,)
+        return t
 
 
 class Facts:
